@@ -297,8 +297,20 @@ func (p *provider) deleteRuleSet(obj any) {
 
 	p.l.Info().Msg("Rule set deletion received")
 
-	// should never be of a different type. ok if panics
-	rs := obj.(*v1alpha4.RuleSet) // nolint: forcetypeassert
+	rs, ok := obj.(*v1alpha4.RuleSet)
+	if !ok {
+		// if the deletion event has been missed, the informer delivers the last known state of the object
+		if tombstone, isTombstone := obj.(cache.DeletedFinalStateUnknown); isTombstone {
+			rs, ok = tombstone.Obj.(*v1alpha4.RuleSet)
+		}
+
+		if !ok {
+			p.l.Warn().Msgf("Unexpected object of type %T received on rule set deletion", obj)
+
+			return
+		}
+	}
+
 	conf := p.toRuleSetConfiguration(rs)
 
 	if err := p.p.OnDeleted(conf); err != nil {
